@@ -165,7 +165,7 @@ impl<'a> Gen<'a> {
             21 => Value::TimeDate(Some(Box::new(time::Date::from_calendar_date(2010 + (t % 10) as i32, time::Month::March, 1 + (t % 28) as u8).unwrap()))),
             22 => Value::IpNetwork(Some(Box::new(ipnetwork::IpNetwork::new(std::net::IpAddr::V4(std::net::Ipv4Addr::new(10, 0, (t % 250) as u8, 0)), 24).unwrap()))),
             23 => Value::MacAddress(Some(Box::new(mac_address::MacAddress::new([1, 2, 3, 4, 5, (t % 250) as u8])))),
-            24 => Value::Array(sea_query::ArrayType::Int, Some(Box::new(vec![Value::Int(Some(t as i32)), Value::Int(Some(7))]))),
+            24 => Value::Array(sea_query::ArrayType::Int, Some(Box::new(if t % 4 == 0 { vec![] } else { vec![Value::Int(Some(t as i32)), Value::Int(Some(7))] }))),
             25 => Value::Vector(Some(Box::new(pgvector::Vector::from(vec![0.5f32, t as f32])))),
             0 => Value::Bool(Some(t % 2 == 0)),
             1 => Value::TinyInt(Some((t % 100) as i8)),
